@@ -27,10 +27,10 @@ type peerInfo struct {
 }
 
 type conv struct {
-	msgs    [][]byte
-	kinds   []int // BMP message type per message
-	peers   []peerInfo
-	localAS uint32
+	msgs     [][]byte
+	kinds    []int // BMP message type per message
+	peers    []peerInfo
+	localAS  uint32
 	routerID uint32
 }
 
